@@ -1448,7 +1448,7 @@ REENTRY = {
 
 
 @stoppable
-def h_reentry(ctx, cls, name, sets, app):
+def h_reentry(ctx, cls, name, sets, app, subsets=None):
     """Saved context objects re-entered while active / after being left /
     interleaved; a probe after every enter and every exit is held against a
     plain stack (enter pushes the object's arguments, exit pops the top).
@@ -1456,7 +1456,10 @@ def h_reentry(ctx, cls, name, sets, app):
     blocks (their exits also send stop for their own app)."""
     script = REENTRY[ctx.pick(sorted(REENTRY))]
     pl = plan(cls, name)
-    levels = {o: {a: sym(ctx, a, o) for a in sets} for o in "abc"}
+    # `subsets`: the saved objects set different arguments each (an object
+    # made up front must add to whatever encloses it WHEN IT IS ENTERED)
+    levels = {o: {a: sym(ctx, a, o) for a in (
+        sets if subsets is None else subsets[o])} for o in "abc"}
     with Env(ctx) as env:
         ctl = env.controller(cls, None, BMP_HOSTS[0])
         s = Scenario(ctx, env, ctl, pl, INIT[cls], BMP_HOSTS[0])
@@ -1716,6 +1719,18 @@ def units(tier, seed):
             cls, name, "application() blocks" if app else ",".join(sets)),
             h_reentry, dict(cls=cls, name=name, sets=sets, app=app),
             witnesses=("sent", "re-entered", "left-by-exception")))
+    us.append(Unit("re-entry MachineController.sdram_alloc, objects setting "
+                   "different arguments", h_reentry,
+                   dict(cls=MC, name="sdram_alloc", sets=(), app=False,
+                        subsets={"a": ("x", "y"), "b": ("app_id",),
+                                 "c": ("y", "app_id")}),
+                   witnesses=("sent", "re-entered", "left-by-exception")))
+    us.append(Unit("re-entry BMPController.set_led, objects setting "
+                   "different arguments", h_reentry,
+                   dict(cls=BMP, name="set_led", sets=(), app=False,
+                        subsets={"a": ("board",), "b": ("frame",),
+                                 "c": ("cabinet", "frame")}),
+                   witnesses=("sent", "re-entered")))
     for cls, name, sets in ((MC, "send_signal", ("app_id",)),
                             (MC, "sdram_alloc", ("x", "y", "app_id")),
                             (BMP, "set_led", ("board", "frame"))):
